@@ -25,6 +25,7 @@ EXPLANATION += (' Second audit wave: C17.10 the instants handed to the crossing 
 EXPLANATION += (' Third audit wave: C17.12 mu0 < threshold < mu1 structurally: every alternative of the stored threshold is an element of linspace(mu0, mu1, n) taken under 0 < index < n-1 (grids nested between interior points and grids cut with [1:-1] are followed), or the midpoint of the levels, or None. C17.6 now also accepts a record cut to whole slots and continued by its first slot when the slot count is odd (the test of the parity is read from the recorded branch condition).')
 EXPLANATION += (' Fourth audit wave: C17.13 the first split of the samples into an upper and a lower population (the boundary handed to shortest_int) comes from two clusters STARTED at the minimum and the maximum of the record (init= built from min and max), or is a mid-range value - never the global least-squares 2-means partition with random starts, which halves the noise cloud of one level when the other holds a handful of samples (3 ones in 4096 slots at 5 % noise: mu1 = 0.04 for a level at 1).')
 EXPLANATION += (' Wave 14: C17.14 a guard that ends GET_EYE early (raise / return) tests the waveform only with unit-free conditions: no np.allclose / np.isclose on the samples (rtol*|b| + atol has a unit), no comparison of samples with a non-zero numeric literal.')
+EXPLANATION += (' Wave 15: C17.15 every value handed to find_nearest is built in double precision (no dtype= / astype that follows the record), unless find_nearest tells every numpy float as a scalar: its exact-type test isinstance(data, (float, np.float64)) sends a float32 scalar down the array branch.')
 TRUSTED = ["sklearn KMeans / scipy gaussian_kde / resample are equivariant under a common affine map of homogeneous data", "numpy semantics of mean/std/unique/roll"]
 
 F0, F1 = Fraction(0), Fraction(1)
@@ -1054,6 +1055,53 @@ def _fn_names(v, depth=0):
     return set()
 
 
+def rule_double_precision(ctx, rule):
+    """C17.15: GET_EYE's find_nearest tells a scalar from an array by isinstance(data, (float, np.float64)).  That is right as long
+    as everything it is handed is double precision - numpy's default.  An array built with a dtype that follows the record
+    (dtype=input.dtype, np.result_type(input, np.float32)) makes the cluster centres float32 for a float32 record, the scalar
+    takes the array branch, len() of a numpy scalar raises TypeError and a clean two-level record has no eye at all.  Decided on
+    the value forms of the arguments of every find_nearest call: none is built with a dtype= / astype other than float64 -
+    unless the scalar test of find_nearest covers every numpy float (np.floating, np.number, numbers.Real)."""
+    import re as _re
+    pkg = ctx.pkg
+    fi = pkg.func("devices.GET_EYE")
+    it = Interp(pkg, param_classes={"input": "electrical_signal"}, assumptions={"input.noise": "none", "sps_resamp": ("truth", True)}, no_inline=("shortest_int",))
+    try:
+        it.run(fi)
+    except Exception as ex:
+        ctx.unknown(rule, fi, fi.node, "GET_EYE: precision of what find_nearest is handed", f"not interpreted ({type(ex).__name__})")
+        return
+    calls = [r for r in it.calls if r.callee and "find_nearest" in r.callee]
+    if not calls:
+        ctx.holds(rule, fi, fi.node, "GET_EYE: no find_nearest helper", "nothing tells scalars from arrays by their exact type")
+        return
+    # does the helper's scalar test cover every numpy float?
+    wide = False
+    for f_ in pkg.module("devices").funcs.values():
+        if f_.name.lstrip("_") == "find_nearest":
+            for n_ in ast.walk(f_.node):
+                if isinstance(n_, ast.Call) and src_of(n_.func) == "isinstance" and len(n_.args) == 2 and _re.search(r"floating|np\.number|numpy\.number|Real|Number|np\.generic|float32", src_of(n_.args[1])):
+                    wide = True
+            if not any(isinstance(n_, ast.Call) and src_of(n_.func) == "isinstance" for n_ in ast.walk(f_.node)):
+                wide = True           # no exact-type test at all (np.ndim / np.isscalar): any precision is told apart correctly
+    ok64 = _re.compile(r"float64|double|<class float>|^float$|complex128|<class complex>|^'?d'?$")
+    for r in calls:
+        bad = []
+        for a_ in r.args:
+            if not isinstance(a_, Form):
+                continue
+            for x in a_.atoms():
+                if x[0] == "fn" and dict(x[3]).get("dtype") is not None and not ok64.search(str(dict(x[3])["dtype"])):
+                    bad.append(f"{x[1]}(..., dtype={str(dict(x[3])['dtype'])[:60]})")
+                elif ((x[0] == "fn" and x[1] == "astype" and len(x[2]) >= 2) or (x[0] == "meth" and x[2] == "astype" and x[3])) :
+                    dt_ = x[2][1] if x[0] == "fn" else x[3][0]
+                    if not ok64.search(str(dt_)):
+                        bad.append(f"astype({str(dt_)[:60]})")
+        ctx.check(rule, wide or not bad, fi, r.node, f"GET_EYE: {src_of(r.node)[:70]} is handed double-precision values", "numpy's default precision (or the helper tells every numpy float as a scalar)",
+                  f"built with {bad[0] if bad else ''}: for a float32 record the values are float32, find_nearest's isinstance(data, (float, np.float64)) sends the scalar down the array branch and "
+                  "len() of a numpy scalar raises TypeError - GET_EYE raises on a clean two-level float32 record")
+
+
 def rule_equivariant_guards(ctx, rule):
     """finite estimates for EVERY unit: a guard that ends GET_EYE early (raise / return) must not test the waveform with something that has a
     unit of its own - np.allclose / np.isclose compare with rtol*|b| + atol (the default atol = 1e-8 is volts, the relative part is measured
@@ -1474,4 +1522,6 @@ def run(ctx):
     rule_threshold_interior(ctx, "C17.12")
     rule_level_split(ctx, "C17.13")
     rule_equivariant_guards(ctx, "C17.14")
+    rule_double_precision(ctx, "C17.15")
+    ctx.require_min("C17.15", 1)
     ctx.require_min("C17.11", 2)
